@@ -371,7 +371,7 @@ def observe(text, rng_edits=None, opt_ops=()):
 
 # ------------------------------------------------------------------ classification
 # text-level findings: oracle tag -> (guard tag that must accompany every occurrence, finding id)
-T_FINDINGS = {31: (231, 'C03-SETOPTION-VALUELESS'), 32: (232, 'C03-REMOVE-OPTION-FIRST')}
+T_FINDINGS = {}      # no text-level finding is open (C03-SETOPTION-VALUELESS, C03-REMOVE-OPTION-FIRST are fixed)
 
 
 def classify(ctx, spec, tags, info):
@@ -639,7 +639,7 @@ def finding_probes(ctx):
             terms.append(term)
         verdicts = ctx.run_cases('findings-text', IMPORTS, 'case', terms, 'verdict', prelude=instr().prelude())
         for f, v in zip(text_f, verdicts):
-            guard = T_FINDINGS[f['expect_tag']][0]
+            guard = T_FINDINGS.get(f['expect_tag'], (None, None))[0]
             if f['expect_tag'] in v and guard in v and 29 not in v:
                 ctx.known(f['id'])
             else:
